@@ -9,6 +9,14 @@ for mode in end start; do
   NBMC_GUARD=$mode NBMC_NO_PYREF=1 NBMC_PART=guard-$mode NBMC_CONFIG=guard "$(bindir guard)/c15" "$tier"; _r=$?
   [ $_r -gt $_rc ] && _rc=$_r
 done
+# the same enumeration in the true dev profile (opt-level 0): the asm blocks are compiled into different
+# surrounding code, results and borrowed operands are checked by the full oracle
+if build dev c15; then
+  NBMC_NO_PYREF=1 NBMC_PART=dev-profile NBMC_CONFIG=dev "$(bindir dev)/c15" "$tier"; _r=$?
+  [ $_r -gt $_rc ] && _rc=$_r
+else
+  [ $_rc -lt 2 ] && _rc=2
+fi
 # valgrind memcheck on the plain release build, reduced space, worker processes traced
 rm -f "$ROOT"/target/valgrind-c15-*.log
 NBMC_VALGRIND=1 NBMC_WORKERS=8 NBMC_NO_PYREF=1 NBMC_PART=valgrind NBMC_CONFIG=rel \
@@ -31,5 +39,5 @@ PY
 done
 [ $_vg_err -gt 0 ] && [ $_rc -lt 1 ] && _rc=1
 _wall=$(python3 -c "import time,sys; print('%.1f' % (time.time()-float(sys.argv[1])))" "$_t0")
-python3 "$ROOT/tools/merge_evidence.py" C15 "$tier" "$_wall" guard-end guard-start valgrind "--extra=valgrind_error_logs=$_vg_err" || exit 2
+python3 "$ROOT/tools/merge_evidence.py" C15 "$tier" "$_wall" guard-end guard-start dev-profile valgrind "--extra=valgrind_error_logs=$_vg_err" || exit 2
 exit $_rc
